@@ -289,54 +289,37 @@ BINDING_PROBES = {
 
 
 def _binding_kinds_rule(ctx, program):
-    """Every construct that makes a name local for CPython's symtable is treated as binding by get_names_set."""
+    """Every construct that makes a name local for CPython's symtable is treated as binding by the name pre-pass: resolve_nonlocals,
+    interpreted for `def f(): <construct binding x>; def g(): return x`, gives x a closure cell of f's own."""
     ctx.rule("R03.3", "constructs that bind a local (per the host's symtable) are recognised by the closure/local-name analysis", floor=14)
     fn = program.func("eval.py::AstEval.get_names_set")
-    # class names the analysis dispatches on: string constants compared with cls_name
-    handled = set()
-    for n in body_walk(fn):
-        if isinstance(n, ast.Compare) and isinstance(n.left, ast.Name) and n.left.id == "cls_name":
-            for c in n.comparators:
-                if isinstance(c, ast.Constant):
-                    handled.add(c.value)
-                else:
-                    cs = const_set(c)
-                    if cs:
-                        handled |= cs
-        if isinstance(n, ast.Call) and dotted(n.func) == "isinstance" and len(n.args) == 2:
-            d = dotted(n.args[1])
-            if d and d.startswith("ast."):
-                handled.add(d[4:])
-    tfn = program.func("eval.py::AstEval.get_target_names")
-    thandled = set()
-    for n in body_walk(tfn):
-        if isinstance(n, ast.Call) and dotted(n.func) == "isinstance" and len(n.args) == 2:
-            for e in (n.args[1].elts if isinstance(n.args[1], ast.Tuple) else [n.args[1]]):
-                d = dotted(e)
-                if d and d.startswith("ast."):
-                    thandled.add(d[4:])
     for kind, probe in BINDING_PROBES.items():
         if probe is None:
             continue
-        src = f"def f():\n    {probe}\n"
+        src = f"def f():\n    {probe}\n    def g():\n        return x\n    return g\n"
         try:
             st = symtable.symtable(src, "<probe>", "exec")
         except SyntaxError:
             continue
         f = st.get_children()[0]
-        binds = f.lookup("x").is_local()
-        if not binds:
+        if not f.lookup("x").is_local():
             continue
-        if kind.endswith("target"):
-            cls = kind.split()[0]
-            ok = cls in thandled
-            unit = "eval.py::AstEval.get_target_names"
-        else:
-            ok = kind in handled
-            unit = "eval.py::AstEval.get_names_set"
+        unit = "eval.py::AstEval.get_target_names" if kind.endswith("target") else "eval.py::AstEval.get_names_set"
+        try:
+            _cells, ex = _scope_run(program, src)
+        except AnalysisError as exc:
+            ctx.skip("R03.3", unit, f"`{probe.strip()}` not summarisable: {exc}")
+            continue
+        bad = []
+        for k, c, d in ex:
+            t = c.heap.get("self.local_sym_table")
+            v = t.get(Const("x")) if isinstance(t, DictV) and k == "return" else None
+            if not (isinstance(v, App) and v.op == "new"):
+                bad.append(d if k != "return" else f"x is {v!r}")
+        ok = bool(ex) and not bad
         ctx.check(ok, "R03.3", unit, f"{kind} binds a local",
-                  msg=f"`{probe.strip()}` makes x a local variable in Python, but the interpreter's local-name analysis does not know {kind}: "
-                  f"an inner function cannot capture such a name (NameError where Python succeeds)",
+                  msg=f"`{probe.strip()}` makes x a local variable in Python, but the interpreter's local-name analysis does not know {kind} "
+                  f"({'; '.join(dict.fromkeys(map(str, bad))) or 'no completed path'}): an inner function cannot capture such a name (NameError where Python succeeds)",
                   key=f"binding construct {kind}", node=fn, rel="eval.py")
 
 
@@ -423,6 +406,25 @@ SCOPE_PROBES = {
 }
 
 
+def _scope_run(program, src):
+    """resolve_nonlocals interpreted for the function definition `src` nested in a function whose scope holds cells for ov and ow."""
+    uid = "eval.py::EvalFunc.resolve_nonlocals"
+    fd = to_nodev(ast.parse(src).body[0])
+    pol = FlowPolicy(program, may_raise_all=False, cancel=False,
+                     inline={"EvalFunc.get_positional_args", "self.get_positional_args", "ast_ctx.get_names", "self.get_names_set", "self.get_target_names",
+                             "self.check_for_closure", "self.get_names"},
+                     summaries={"self.ast_attribute_collapse": lambda i, n, a, k, c, o: [(c, NONE)]})
+    pol.loop_unroll = 12
+    pol.param_writeback = True
+    pol.inline_depth = 60
+    cells = {n: ObjV(f"cell_{n}", "EvalLocalVar") for n in ("ov", "ow")}
+    heap = {"self.func_def": fd, "self.has_closure": Const(False), "self.local_sym_table": DictV([]), "self.local_names": NONE, "self.global_names": ListV((), "set"),
+            "self.nonlocal_names": ListV((), "set"), "ast_ctx.sym_table_stack": ListV((DictV([]),), "list"),
+            "ast_ctx.sym_table": DictV([(Const(n), c) for n, c in cells.items()])}
+    out = run_flow(program, uid, pol, args={"self": ObjV("self", "EvalFunc"), "ast_ctx": ObjV("ast_ctx", "AstEval")}, heap=heap)
+    return cells, exits(out)
+
+
 def _scope_classes_rule(ctx, program):
     """The name pre-pass (get_names / get_names_set / get_target_names, interpreted through resolve_nonlocals) classifies the names of a
     function as the host's symtable does: locals get their own cell, free names the enclosing cell, declared globals neither."""
@@ -438,20 +440,7 @@ def _scope_classes_rule(ctx, program):
         want_free = sorted(x.get_name() for x in syms if x.is_free())
         want_glob = sorted(x.get_name() for x in syms if x.is_declared_global())
         has_inner = any(ch.get_type() in ("function", "class") for ch in st.get_children())
-        fd = to_nodev(ast.parse(src).body[0])
-        pol = FlowPolicy(program, may_raise_all=False, cancel=False,
-                         inline={"EvalFunc.get_positional_args", "self.get_positional_args", "ast_ctx.get_names", "self.get_names_set", "self.get_target_names",
-                                 "self.check_for_closure", "self.get_names"},
-                         summaries={"self.ast_attribute_collapse": lambda i, n, a, k, c, o: [(c, NONE)]})
-        pol.loop_unroll = 12
-        pol.param_writeback = True
-        pol.inline_depth = 60
-        cells = {n: ObjV(f"cell_{n}", "EvalLocalVar") for n in ("ov", "ow")}
-        heap = {"self.func_def": fd, "self.has_closure": Const(False), "self.local_sym_table": DictV([]), "self.local_names": NONE, "self.global_names": ListV((), "set"),
-                "self.nonlocal_names": ListV((), "set"), "ast_ctx.sym_table_stack": ListV((DictV([]),), "list"),
-                "ast_ctx.sym_table": DictV([(Const(n), c) for n, c in cells.items()])}
-        out = run_flow(program, uid, pol, args={"self": ObjV("self", "EvalFunc"), "ast_ctx": ObjV("ast_ctx", "AstEval")}, heap=heap)
-        ex = exits(out)
+        cells, ex = _scope_run(program, src)
         problems = []
         for k, c, d in ex:
             if k != "return":
@@ -551,34 +540,49 @@ def _cell_rule(ctx, program):
 
 
 def _scope_order_rule(ctx, program):
-    """resolve_nonlocals searches enclosing scopes innermost first."""
-    ctx.rule("R03.10", "free/nonlocal names resolve to the innermost enclosing scope that binds them", floor=2)
-    from ..absint import Interp, Policy
-    fn = program.func("eval.py::EvalFunc.resolve_nonlocals")
-    loops = []
-    for n in body_walk(fn):
-        if isinstance(n, ast.For) and isinstance(n.target, ast.Name):
-            txt = norm(n.iter)
-            if "sym_table_stack" in txt:
-                loops.append(n)
-    if not loops:
-        raise AnalysisError("resolve_nonlocals: scope search loop over sym_table_stack not found")
-    for loop in loops:
-        for idx in (0, 1):
-            interp = Interp(Policy(program), "eval.py")
-            actx = ObjV("ast_ctx", "AstEval")
-            stack = ListV([Sym(("scope", "global")), Sym(("scope", "outer")), Sym(("scope", "middle"))])
-            cfg = Cfg(env={"ast_ctx": actx, "sym_table_idx": Const(idx), "self": ObjV("self", "EvalFunc")},
-                      heap={"ast_ctx.sym_table_stack": stack, "ast_ctx.sym_table": Sym(("scope", "current"))})
-            res = interp.ev(loop.iter, cfg, Out())
-            exp = [Sym(("scope", "current")), Sym(("scope", "middle")), Sym(("scope", "outer")), Sym(("scope", "global"))]
-            if idx == 1:
-                exp = exp[:-1]
-            got = [list(v.items) if isinstance(v, ListV) else None for _, v in res]
-            ctx.check(got == [exp], "R03.10", "eval.py::EvalFunc.resolve_nonlocals", f"scope search order (skip {idx} outermost)",
-                      msg=f"resolve_nonlocals searches scopes in order {got} instead of innermost-first {exp}: a free or nonlocal name "
-                      f"binds to the wrong enclosing function when two of them define it",
-                      key=f"scope search order idx={idx}", node=loop, rel="eval.py")
+    """resolve_nonlocals, interpreted on a stack of enclosing scopes that all hold a cell for the name: the innermost one is captured;
+    the outermost (module) table is searched for a free name but never for a `nonlocal` one."""
+    ctx.rule("R03.10", "free/nonlocal names resolve to the innermost enclosing scope that binds them", floor=5)
+    uid = "eval.py::EvalFunc.resolve_nonlocals"
+    cells = {k: ObjV(f"cell_x_{k}", "EvalLocalVar") for k in ("global", "outer", "middle", "current")}
+    free_src = "def f():\n    def g():\n        return x\n    return g\n"
+    nonl_src = "def f():\n    nonlocal x\n    x = 1\n"
+    cases = [
+        ("free name, cell in every scope", free_src, ("global", "outer", "middle", "current"), "current"),
+        ("free name, cell in the two outer functions", free_src, ("outer", "middle"), "middle"),
+        ("free name, cell in the outermost function only", free_src, ("outer",), "outer"),
+        ("free name, cell in the outermost table only", free_src, ("global",), "global"),
+        ("nonlocal name, cell in every scope", nonl_src, ("global", "outer", "middle", "current"), "current"),
+        ("nonlocal name, cells in the outermost table and one function", nonl_src, ("global", "outer"), "outer"),
+        ("nonlocal name, cell in the outermost table only", nonl_src, ("global",), None),
+    ]
+    for label, src, holders, want in cases:
+        fd = to_nodev(ast.parse(src).body[0])
+        pol = FlowPolicy(program, may_raise_all=False, cancel=False,
+                         inline={"EvalFunc.get_positional_args", "self.get_positional_args", "ast_ctx.get_names", "self.get_names_set", "self.get_target_names",
+                                 "self.check_for_closure", "self.get_names"},
+                         summaries={"self.ast_attribute_collapse": lambda i, n, a, k, c, o: [(c, NONE)]})
+        pol.loop_unroll = 12
+        pol.inline_depth = 60
+
+        def tab(k):
+            return DictV([(Const("x"), cells[k])] if k in holders else [])
+        heap = {"self.func_def": fd, "self.has_closure": Const(False), "self.local_sym_table": DictV([]), "self.local_names": NONE, "self.global_names": ListV((), "set"),
+                "self.nonlocal_names": ListV((), "set"), "ast_ctx.sym_table_stack": ListV((tab("global"), tab("outer"), tab("middle")), "list"),
+                "ast_ctx.sym_table": tab("current")}
+        out = run_flow(program, uid, pol, args={"self": ObjV("self", "EvalFunc"), "ast_ctx": ObjV("ast_ctx", "AstEval")}, heap=heap)
+        got = set()
+        for k, c, d in exits(out):
+            if k != "return":
+                got.add(None)
+                continue
+            t = c.heap.get("self.local_sym_table")
+            v = t.get(Const("x")) if isinstance(t, DictV) else None
+            got.add(next((n for n, cell in cells.items() if cell == v), None if v is None else repr(v)))
+        ctx.check(got == {want}, "R03.10", uid, f"scope search: {label}",
+                  msg=f"resolve_nonlocals ({label}; scopes holding a cell for x: {list(holders)}): x is bound to the cell of {sorted(map(str, got))}, Python binds it to "
+                  f"{want or 'nothing (SyntaxError: no binding for nonlocal)'}: a free or nonlocal name binds to the wrong enclosing function when two of them define it",
+                  key=f"scope search {label}", node=program.func(uid), rel="eval.py")
 
 
 def _defn_order_rule(ctx, program):
